@@ -3,6 +3,8 @@ import DL.Model.Dir
 import DL.Model.Pipe
 import DL.Model.Sel
 import DL.Gen.RuleTable
+import DL.Model.CFJson
+import DL.Model.CFRules
 
 /-! `dlmodel`: one JSON request per line on stdin, one JSON answer per line on stdout. -/
 open Lean (Json)
@@ -109,6 +111,62 @@ def runSortPrio (j : Json) : Except String Json := do
   let rs := codes.filterMap fun c => DL.Gen.ruleTable.find? (·.code == c)
   pure (Json.arr ((DL.Sel.sortByPriority rs).map (fun r => Json.str r.code)).toArray)
 
+/-! ### cf -/
+open DL.CF in
+def parseMetaStr (s : String) : Option Meta :=
+  if s == "absent" then none else
+  let u := s.startsWith "u1"
+  let e := (s.drop 3).toString
+  let b := fun (c : Char) => c == '1'
+  let en : Option End :=
+    if e == "-" then none
+    else if e == "B" then some .brk
+    else if e == "C" then some .cont
+    else match e.toList with
+      | ['F', r, t, i] => some (.forced (b r) (b t) (b i))
+      | _ => none
+  some { unreachable := u, end_ := en }
+
+def natList (j : Json) (k : String) : Except String (List Nat) := do
+  (← getArr j k).toList.mapM (·.getNat?)
+
+def sortNat (l : List Nat) : List Nat := (l.mergeSort (fun a b => a ≤ b)).eraseDups
+
+open DL.CF in
+def runCf (j : Json) : Except String Json := do
+  let prog ← DL.CF.J.program (← j.getObjVal? "prog")
+  let q ← natList j "query"
+  let info := DL.CF.analyze prog
+  let metaJ := Json.mkObj (q.map fun p => (toString p, Json.str (DL.CF.J.canonMeta (info p))))
+  -- rule layers on the model's own analysis
+  let getters ← (← getArr j "getters").toList.mapM fun g => do
+    pure ({ at_ := ← getNat g "at", bodyP := ← getNat g "bodyp", body := ← DL.CF.J.stmts (← DL.CF.J.arr g "body") } : Getter)
+  let cases ← (← getArr j "cases").toList.mapM fun c => do
+    pure ({ p := ← getNat c "p", body := ← DL.CF.J.stmts (← DL.CF.J.arr c "body"), empty := ← DL.CF.J.bool c "empty",
+            ftComment := ← DL.CF.J.bool c "ft" } : SwCase)
+  let un := sortNat (prog.flagged info)
+  let ge := sortNat ((getters.filter (getterReported info)).map (·.at_))
+  let ft := sortNat ((cases.filter (caseReported info)).map (·.p))
+  -- the property oracles, evaluated on what the *implementation* reported
+  let implUn ← natList j "impl_unreachable"
+  let implGe ← natList j "impl_getter"
+  let implFt ← natList j "impl_fallthrough"
+  let implMetaJ ← j.getObjVal? "impl_meta"
+  let implInfo : Info := fun p =>
+    match implMetaJ.getObjVal? (toString p) with
+    | .ok (.str s) => parseMetaStr s
+    | _ => none
+  let o1 := (implUn.filter prog.reachable).map fun (p : Nat) => Json.arr #["C10", "flagged-but-reachable", (p : Json)]
+  let o2 := (getters.filter fun g => g.body.compl.n && !implGe.contains g.at_).map fun g =>
+    Json.arr #["C11", "getter-can-fall-off-the-end-but-not-reported", (g.at_ : Json)]
+  let o3 := (cases.filter fun c => !c.empty && !c.ftComment && c.body.compl.n && prog.reachable c.p && !implFt.contains c.p).map fun c =>
+    Json.arr #["C11", "case-can-fall-through-but-not-reported", (c.p : Json)]
+  let o4 := (sortNat ((prog.stopViol implInfo).filter prog.reachable)).map fun (p : Nat) => Json.arr #["C11", "metadata-says-stops-but-can-complete-normally", (p : Json)]
+  pure (Json.mkObj [("meta", metaJ), ("unreachable", Json.arr (un.map (fun (n : Nat) => (n : Json))).toArray),
+    ("getter", Json.arr (ge.map (fun (n : Nat) => (n : Json))).toArray),
+    ("fallthrough", Json.arr (ft.map (fun (n : Nat) => (n : Json))).toArray),
+    ("oracle", Json.arr (o1 ++ o2 ++ o3 ++ o4).toArray)])
+
 def dispatch (j : Json) : Except String Json := do
   match ← getStr j "m" with
   | "dir" => runDir j
@@ -117,6 +175,7 @@ def dispatch (j : Json) : Except String Json := do
   | "sel" => runSel j
   | "recommended" => pure (Json.arr ((DL.Sel.recommended DL.Gen.ruleTable).map (fun r => Json.str r.code)).toArray)
   | "sortprio" => runSortPrio j
+  | "cf" => runCf j
   | m => throw s!"unknown model {m}"
 
 end Drv
